@@ -2,6 +2,7 @@ import Driver.Util
 import LemoModel.Merkle
 import LemoModel.Mpt
 import LemoModel.MptStore
+import LemoModel.MptDecode
 namespace Driver.C17
 open LemoModel Driver
 
@@ -435,6 +436,25 @@ def step (s : St) (w : List String) : St × String :=
   | ["tdump"] => (s, showDump s.trie)
   | ["tcommit"] => (s, showDump s.trie)      -- Commit is the identity on the resolved structure
   | ["treopen"] => (s, showDump s.trie)      -- so is reopening by root from the database
+  -- the `d…` stream: byte blobs through the node decoder (`LemoModel.MptDecode`)
+  | ["dnode", hf, g, b] =>
+    match g.toNat?, parseHex? b with
+    | some g, some b =>
+      (s, match MptDecode.decodeTop (if hf == "h" then some [] else none) g (b.map UInt8.ofNat) with
+        | .ok p => "ok " ++ MptDecode.dump p
+        | .err e => e.show
+        | .panic => "panic-index"
+        | .depth => "depth")
+    | _, _ => (s, "bad-op")
+  | ["dmust", b] =>
+    match parseHex? b with
+    | some b =>
+      (s, match MptDecode.mustDecodeNode (b.map UInt8.ofNat) with
+        | .ok _ => "ok"
+        | .panicErr e => "panic-" ++ e.show
+        | .panicIndex => "panic-index"
+        | .depth => "depth")
+    | none => (s, "bad-op")
   | w =>
     match w with
     | op :: _ =>
